@@ -449,6 +449,48 @@ ADDENDA = {
 }
 
 
+_WF = ("Well-formedness of the anchor files and of every module the rules read (E12): no name bound nowhere, no local read on a path "
+       "that has not assigned it, no `self.x` no class in the hierarchy defines, no closure cell indexed past 0.")
+ADDENDA2 = {
+    "C01": "fail() answers True exactly when it delivered.",
+    "C03": "The flag an emit loop polls is written with the value that stops the loop; ScheduledItem.invoke stores the action's result unconditionally.",
+    "C05": "default_comparer is exactly ==; predicate / comparer results are used by truthiness (never compared with True / False).",
+    "C06": "default_sub_comparer is exactly the difference; extrema_by decides on the sign of the comparison (> 0 replaces, >= 0 collects); average's "
+           "emptiness test is the element count.",
+    "C07": "The spellings ops.slice / Observable.slice hand their bounds to slice_ unchanged.",
+    "C10": "The sequencers default to the trampoline; + / += are concat(self, other); a scheduled step does not replace a subscription it installed.",
+    "C11": "flat_map / flat_map_indexed hand a callable on by its role and anything else as the constant inner.",
+    "C13": "with_latest_from tests its no-value marker by identity; reactivex.amb folds every source; each amb handler enters the race first and is gated by its own side's constant.",
+    "C15": "The re-arm uses the oldest queued notification.",
+    "C16": "A superseded timer changes nothing (presence flag written only by the emitting handler); the presence flag starts False; sample subscribes "
+           "the source before the sampler and builds its ticker on the given scheduler; counters advance by a non-zero step.",
+    "C17": "timeout's fallback defaults to throw; timeout_with_mapper advances the timer generation through one helper, under `not switched`.",
+    "C18": "window_toggle's element durations are empty() on the immediate scheduler; drain-style fan-out loops run while the queue is non-empty; "
+           "window_with_time_or_count advances one generation id in both rollovers, compares generations for equality and arms the first timer; "
+           "group_join fans terminal notifications out over the map of window subjects.",
+    "C19": "A failing user callback ends every open group before the subscriber.",
+    "C20": "on_next of the observer wrappers never stops or detaches the observer.",
+    "C24": "auto_connect: counter starts at 0, advances by one, connects under `count == n and not connected`, flag starts False.",
+    "C25": "The winning path writes True into the flag.",
+    "C26": "SerialDisposable installs the new item before disposing the old one, in one critical section; items are disposed outside a non-reentrant lock.",
+    "C27": "add_ref / GroupedObservable take a dependent for every subscription, before subscribing; release marks the container disposed.",
+    "C28": "advance_to leaves the clock at the target for both clock kinds and only on the normal path.",
+    "C29": "The spin guard advances both clock kinds and its counter reset is not kind-specific.",
+    "C30": "The trampoline goes idle in the critical section that found the queue empty; nothing resets it after a normal drain.",
+    "C33": "The thread-safe schedule_relative cancels every handle it recorded.",
+    "C34": "The event loop treats an item due exactly now as due (agrees with schedule_absolute).",
+    "C35": "schedule* delegations forward the state; elapsed = after - before; timer(d, p) advances from the previous due time.",
+    "C36": "Every schedule_absolute converts its due time with to_datetime before computing with it.",
+    "C37": "Typestate of the 12 primitive sources; emit before reschedule; one result per factory; scheduler resolved by `or <default>()`; public "
+           "creation functions forward every parameter; timer compares converted seconds only.",
+    "C38": "int before float in the number cast; raise_stopped forwarded.",
+    "C39": "No Observable subclass shadows a fluent method; fluent parameters are in the operator's positional order.",
+    "C41": "run / to_async resolve and use their scheduler; from_future's cancel is decided by the presence of the future only.",
+    "C43": "Calls on window subjects are under the operator's lock; Observable.lock is one re-entrant lock allocated in __init__.",
+    "C44": "compose() is analysed as an operator factory; one-shot iterators consumed by reduce / list / ... count as consumed.",
+}
+
+
 def all_ids():
     ids = []
     with open(os.path.join(VERIF, "properties.jsonl")) as fh:
@@ -474,7 +516,7 @@ def build():
                 "replay_cmd_template": f"sh sa/run.sh {pid} replay {{path}}",
                 "engine": "rxsa",
                 "level_claimed": {"category": "other",
-                                  "text": f"[{c['strength']}] " + c["text"] + ((" " + ADDENDA[pid]) if pid in ADDENDA else ""),
+                                  "text": f"[{c['strength']}] " + c["text"] + ((" " + ADDENDA[pid]) if pid in ADDENDA else "") + ((" " + ADDENDA2[pid]) if pid in ADDENDA2 else "") + " " + _WF,
                                   "design_ref": f"DESIGN.md §4 {pid}"},
                 "level_note": c["note"],
                 "technique": "static analysis: " + c["technique"],
